@@ -1,5 +1,333 @@
-(* C02 — final statements (work in progress) *)
-From Coq Require Import List ZArith Bool.
-From Verif Require Import C02.Model C02.Proofs.
+(* C02 — Concurrency quotas bound in-flight requests and always free their
+   slots.  Final statements only; proofs are in Proofs.v / Proofs2.v / Proofs3.v.
+
+   Schedules are arbitrary lists of events of the small-step machine of
+   Model.v: any transaction thread or GC thread executes its next lock region
+   ([EStep]), an idle thread starts any operation ([ECall]), the clock moves
+   forward ([ETick], monotone by construction).  [reachable c t0 s] = s is the
+   state after some event list from the empty state at instant t0. *)
+From Coq Require Import List ZArith Bool Lia.
+From Verif Require Import C02.Model C02.Proofs C02.Proofs2 C02.Proofs3.
 Import ListNotations.
 Open Scope Z_scope.
+
+(* ---- bound ---------------------------------------------------------- *)
+
+(* After every schedule the member set of every quota has at most max
+   elements, and the requests in flight under the quota (status of an admitted
+   slot held, expiry not passed, release not begun: [inflight]) are pairwise
+   different members of that set — so at every instant at most max
+   transactions are in flight.  No hypothesis on the configuration or on what
+   the transactions do. *)
+Theorem C02_bound : forall c t0 s, reachable c t0 s -> forall q,
+  Z.of_nat (length (members s q)) <= Z.max 0 (cmax c q) /\
+  forall rs, NoDup rs -> (forall r, In r rs -> inflight s q r) ->
+    (forall r, In r rs -> In r (map snd (members s q))) /\
+    Z.of_nat (length rs) <= Z.max 0 (cmax c q).
+Proof.
+  intros c t0 s R q. assert (B := bound_reachable c t0 s R q). split; [exact B|].
+  intros rs ND H. assert (I := Inv1_reachable c t0 s R). split.
+  - intros r Hr. apply inflight_member; auto.
+  - assert (L := inflight_count s q rs I ND H). lia.
+Qed.
+Print Assumptions C02_bound.
+
+(* An admitted request whose Allowed verdict is being produced holds the
+   status of the quota: the verdict "allowed" is only ever written by the
+   status check of a root quota, and the check of a child passes control to
+   its parent only when the child's status is held. *)
+Theorem C02_admitted_holds_status : forall c s r q rest,
+  stk s (Req r) = FACheck q :: rest ->
+  let s' := step c s (EStep (Req r)) in
+  (status s q r = None -> verdict s' r = Some false /\ stk s' (Req r) = rest) /\
+  (status s q r <> None -> cpar c q = None -> verdict s' r = Some true /\ stk s' (Req r) = rest) /\
+  (status s q r <> None -> forall p, cpar c q = Some p ->
+     verdict s' r = verdict s r /\ stk s' (Req r) = FIncCheck p :: FACheck p :: rest).
+Proof.
+  intros c s r q rest E. cbn [step]. rewrite E. cbn [exec self].
+  destruct (status s q r) eqn:S; repeat split; try congruence; intros;
+    cbn [verdict stk set_stk set_verdict]; rewrite ?updt_same, ?upd_same; try reflexivity.
+  - rewrite H0. cbn [verdict stk set_stk set_verdict]. rewrite upd_same. reflexivity.
+  - rewrite H0. cbn [verdict stk set_stk set_verdict]. rewrite updt_same. reflexivity.
+  - rewrite H0. reflexivity.
+  - rewrite H0. cbn [verdict stk set_stk set_verdict]. rewrite updt_same. reflexivity.
+Qed.
+Print Assumptions C02_admitted_holds_status.
+
+(* ---- release exactly once ------------------------------------------- *)
+
+(* One event changes the member set of a quota in at most one way:
+   nothing; one member appended by the stepping request while there is room;
+   one occurrence removed that is the stepping request's OWN member (its Dec:
+   response flow or drop); one occurrence removed by the GC of that quota whose
+   expiry has passed ([e <= now]).  Nobody else's unexpired member is ever
+   removed. *)
+Theorem C02_release_once_step : forall c t0 s ev q, reachable c t0 s ->
+  member_change c s ev q (members (step c s ev) q).
+Proof.
+  intros c t0 s ev q R. apply step_member_change. eapply Inv1_reachable; eauto.
+Qed.
+Print Assumptions C02_release_once_step.
+
+(* A Dec of a request that holds no status in the quota (it was refused, or it
+   released or lost the slot before) changes nothing: no count goes down a
+   second time. *)
+Theorem C02_second_dec_noop : forall c s r q,
+  stk s (Req r) = [] -> status s q r = None ->
+  let s1 := step c s (ECall (Req r) (ODec q)) in
+  let s2 := step c s1 (EStep (Req r)) in
+  stk s2 (Req r) = [] /\ members s2 = members s /\ status s2 = status s /\ firstq s2 = firstq s.
+Proof. exact dec_without_status_noop. Qed.
+Print Assumptions C02_second_dec_noop.
+
+(* For every phased schedule (no transaction is asked to Inc/Allowed after it
+   was asked to Dec/drop/finish) on an acyclic configuration: a request has at
+   most one member per quota, so the one removal of C02_release_once_step is
+   the only one there can be; and every member belongs to a request that
+   holds its status or is just recording it. *)
+Theorem C02_release_once : forall c t0 evs, wf c -> phased c t0 evs ->
+  let s := run c (init t0) evs in
+  forall q,
+    NoDup (map snd (members s q)) /\
+    forall e r, In (e, r) (members s q) ->
+      status s q r = Some e \/ In (FSet q e) (stk s (Req r)).
+Proof.
+  intros c t0 evs WF P s q. destruct (Inv2_reachable c t0 evs WF P) as [g J].
+  split; [apply (j_H g _ J)|apply (j_E g _ J)].
+Qed.
+Print Assumptions C02_release_once.
+
+(* ---- no leak --------------------------------------------------------- *)
+
+(* If, after a phased schedule, no request holds or is recording a status of
+   quota q — every transaction that was admitted has ended: its Dec ran
+   (response end flow or drop of its first chain), or the GC deleted its
+   status after its expiry — then the member set of q is empty. *)
+Theorem C02_no_leak : forall c t0 evs, wf c -> phased c t0 evs ->
+  let s := run c (init t0) evs in
+  forall q,
+    (forall r, status s q r = None) ->
+    (forall r e, ~ In (FSet q e) (stk s (Req r))) ->
+    members s q = [].
+Proof.
+  intros c t0 evs WF P s q H1 H2. destruct (Inv2_reachable c t0 evs WF P) as [g J].
+  destruct (members s q) as [|[e r] l] eqn:M; [reflexivity|]. exfalso.
+  destruct (j_E g _ J q e r) as [A|A].
+  - fold s. rewrite M. left. reflexivity.
+  - fold s in A. rewrite H1 in A. discriminate.
+  - exact (H2 r e A).
+Qed.
+Print Assumptions C02_no_leak.
+
+(* Then a fresh probe is admitted: if no request holds or is recording a
+   status on any quota of the chain of q and every max on the chain is
+   positive, an idle request p without status that runs Allowed(q) (alone, to
+   completion) gets the verdict "allowed". *)
+Theorem C02_no_leak_probe : forall c t0 evs, wf c -> phased c t0 evs ->
+  let s := run c (init t0) evs in
+  forall q p,
+    stk s (Req p) = [] ->
+    (forall q', anc c q q' ->
+       0 < cmax c q' /\ (forall r, status s q' r = None) /\
+       (forall r e, ~ In (FSet q' e) (stk s (Req r)))) ->
+    exists n,
+      let s' := run c s (ECall (Req p) (OAllowed q) :: repeat (EStep (Req p)) n) in
+      stk s' (Req p) = [] /\ verdict s' p = Some true.
+Proof.
+  intros c t0 evs WF P s q p E H. apply probe_admitted; [exact WF|exact E|].
+  intros q' A. destruct (H q' A) as [Mx [H1 H2]]. split; [apply H1|].
+  assert (X := C02_no_leak c t0 evs WF P q' H1 H2). cbn zeta in X. fold s in X.
+  rewrite X. cbn. exact Mx.
+Qed.
+Print Assumptions C02_no_leak_probe.
+
+(* The same without any history: whenever there is room on the whole chain, a
+   request without status is admitted (no spurious refusal). *)
+Theorem C02_room_admits : forall c, wf c -> forall s p q,
+  stk s (Req p) = [] ->
+  (forall q', anc c q q' ->
+     status s q' p = None /\ Z.of_nat (length (members s q')) < cmax c q') ->
+  exists n,
+    let s' := run c s (ECall (Req p) (OAllowed q) :: repeat (EStep (Req p)) n) in
+    stk s' (Req p) = [] /\ verdict s' p = Some true.
+Proof. exact probe_admitted. Qed.
+Print Assumptions C02_room_admits.
+
+(* ---- the ways a slot is given back ----------------------------------- *)
+
+(* Response: the Dec of a quota (QuotaProcessorDec of the end flow), run to
+   completion by a request that holds the status of the whole chain, removes
+   exactly its own member from every quota of the chain, deletes its statuses
+   there, and changes no other quota and no other request's status. *)
+Theorem C02_dec_releases_chain : forall c, wf c -> forall s r q,
+  stk s (Req r) = [] ->
+  (forall q', anc c q q' -> status s q' r <> None) ->
+  exists n,
+    let s' := run c s (ECall (Req r) (ODec q) :: repeat (EStep (Req r)) n) in
+    stk s' (Req r) = [] /\
+    (forall q', anc c q q' ->
+       status s' q' r = None /\
+       exists e, status s q' r = Some e /\ members s' q' = remove_first (e, r) (members s q')) /\
+    (forall q', ~ anc c q q' -> members s' q' = members s q') /\
+    (forall q' r', ~ anc c q q' \/ r' <> r -> status s' q' r' = status s q' r').
+Proof.
+  intros c WF s r q E H.
+  set (s0 := step c s (ECall (Req r) (ODec q))).
+  assert (E0 : stk s0 (Req r) = [FDec1 q]).
+  { unfold s0. cbn [step]. rewrite E. cbn [op_fits frames_of stk set_stk]. apply updt_same. }
+  assert (X0 : members s0 = members s /\ status s0 = status s).
+  { unfold s0. cbn [step]. rewrite E. cbn [op_fits]. split; reflexivity. }
+  destruct X0 as [M0 St0].
+  destruct (dec_drain c WF q s0 [] r E0) as [n F]; [rewrite St0; exact H|].
+  exists n. cbn zeta in *. rewrite alone_call. fold s0. rewrite M0, St0 in F. exact F.
+Qed.
+Print Assumptions C02_dec_releases_chain.
+
+(* Early answer / proxy error: OnRequestDrop releases the chain of the FIRST
+   quota the transaction was associated with (reqIDToQuota) ... *)
+Theorem C02_drop_releases_first_chain : forall c, wf c -> forall s r q1,
+  stk s (Req r) = [] -> firstq s r = Some q1 ->
+  (forall q', anc c q1 q' -> status s q' r <> None) ->
+  exists n,
+    let s' := run c s (ECall (Req r) ODrop :: repeat (EStep (Req r)) n) in
+    stk s' (Req r) = [] /\ firstq s' r = None /\
+    (forall q', anc c q1 q' ->
+       status s' q' r = None /\
+       exists e, status s q' r = Some e /\ members s' q' = remove_first (e, r) (members s q')).
+Proof.
+  intros c WF s r q1 E F H.
+  set (s0 := step c s (ECall (Req r) ODrop)).
+  assert (E0 : stk s0 (Req r) = [FDrop]).
+  { unfold s0. cbn [step]. rewrite E. cbn [op_fits frames_of stk set_stk]. apply updt_same. }
+  assert (X0 : members s0 = members s /\ status s0 = status s /\ firstq s0 = firstq s).
+  { unfold s0. cbn [step]. rewrite E. cbn [op_fits]. auto. }
+  destruct X0 as [M0 [St0 F0]].
+  set (s1 := exec c s0 (Req r) FDrop []).
+  assert (E1 : stk s1 (Req r) = [FDec1 q1]).
+  { unfold s1. cbn [exec self]. rewrite F0, F. cbn [stk set_stk]. apply updt_same. }
+  assert (X1 : members s1 = members s /\ status s1 = status s /\ firstq s1 r = None).
+  { unfold s1. cbn [exec self]. rewrite F0, F. cbn [members status firstq set_stk set_firstq].
+    rewrite upd_same. auto. }
+  destruct X1 as [M1 [St1 F1]].
+  destruct (dec_drain c WF q1 s1 [] r E1) as [n [G1 [G2 [G3 G4]]]]; [rewrite St1; exact H|].
+  cbn zeta in *. exists (1 + n)%nat. rewrite alone_call. fold s0. rewrite alone_add.
+  assert (A1 : alone c s0 (Req r) 1 = s1) by (rewrite (alone_top c s0 _ _ _ _ E0); reflexivity).
+  rewrite A1. split; [exact G1|]. split.
+  - assert (D : dec_stack (anc c q1) (stk s1 (Req r))).
+    { rewrite E1. intros f [<-|[]]. exists q1. split; [reflexivity|apply anc_refl]. }
+    destruct (dec_alone_outside c (anc c q1) r (anc_closed c q1) n s1 D) as [_ [_ [_ [FF _]]]].
+    cbn zeta in FF. rewrite FF. exact F1.
+  - intros q' A. rewrite M1, St1 in G2. apply G2. exact A.
+Qed.
+Print Assumptions C02_drop_releases_first_chain.
+
+(* ... and ONLY that chain: whatever the request holds, however long it runs,
+   a drop changes no member set and no status of a quota outside the chain of
+   the first-touched quota.  A slot the request holds in a second, unrelated
+   quota stays where it is ... *)
+Theorem C02_drop_only_first_chain : forall c s r q1 n,
+  stk s (Req r) = [] -> firstq s r = Some q1 ->
+  let s' := run c s (ECall (Req r) ODrop :: repeat (EStep (Req r)) n) in
+  forall q2, ~ anc c q1 q2 ->
+    members s' q2 = members s q2 /\ forall r', status s' q2 r' = status s q2 r'.
+Proof.
+  intros c s r q1 n E F. cbn zeta. rewrite alone_call.
+  set (s0 := step c s (ECall (Req r) ODrop)).
+  assert (E0 : stk s0 (Req r) = [FDrop]).
+  { unfold s0. cbn [step]. rewrite E. cbn [op_fits frames_of stk set_stk]. apply updt_same. }
+  assert (X0 : members s0 = members s /\ status s0 = status s /\ firstq s0 = firstq s).
+  { unfold s0. cbn [step]. rewrite E. cbn [op_fits]. auto. }
+  destruct X0 as [M0 [St0 F0]].
+  destruct n as [|n]; [rewrite alone_0, M0, St0; auto|].
+  rewrite (alone_top c s0 _ _ _ _ E0).
+  set (s1 := exec c s0 (Req r) FDrop []).
+  assert (E1 : stk s1 (Req r) = [FDec1 q1]).
+  { unfold s1. cbn [exec self]. rewrite F0, F. cbn [stk set_stk]. apply updt_same. }
+  assert (X1 : members s1 = members s /\ status s1 = status s).
+  { unfold s1. cbn [exec self]. rewrite F0, F. auto. }
+  destruct X1 as [M1 St1].
+  assert (D : dec_stack (anc c q1) (stk s1 (Req r))).
+  { rewrite E1. intros f [<-|[]]. exists q1. split; [reflexivity|apply anc_refl]. }
+  destruct (dec_alone_outside c (anc c q1) r (anc_closed c q1) n s1 D) as [_ [G1 [G2 _]]].
+  cbn zeta in *. intros q2 N. rewrite G1, M1 by exact N. split; [reflexivity|].
+  intros r'. rewrite G2, St1; auto.
+Qed.
+Print Assumptions C02_drop_only_first_chain.
+
+(* ... until its expiry passes: one GC pass of a quota (run alone) removes
+   exactly the members whose expiry is <= now — every one of them, in one
+   pass — deletes their requests' statuses in that quota, and keeps every
+   unexpired member, in order; other quotas are untouched. *)
+Theorem C02_gc_releases_expired : forall c s q,
+  stk s (Gc q) = [] ->
+  exists n,
+    let s' := run c s (ECall (Gc q) (OGc q) :: repeat (EStep (Gc q)) n) in
+    stk s' (Gc q) = [] /\
+    members s' q = filter (fun m => now s <? fst m) (members s q) /\
+    (forall e r, In (e, r) (members s q) -> e <= now s ->
+       ~ In (e, r) (members s' q) /\ status s' q r = None) /\
+    (forall q', q' <> q -> members s' q' = members s q' /\ forall r, status s' q' r = status s q' r).
+Proof.
+  intros c s q E. destruct (gc_pass c s q E) as [n [F1 [F2 [F3 [F4 [F5 [F6 F7]]]]]]].
+  exists n. cbn zeta in *. split; [exact F1|]. split; [exact F2|]. split.
+  - intros e r H L. split; [|eapply F5; eauto].
+    rewrite F2. intros X. apply filter_In in X. destruct X as [_ X]. unfold live in X. cbn in X.
+    apply Z.ltb_lt in X. lia.
+  - intros q' N. split; [apply F4; exact N|intros r; apply F7; exact N].
+Qed.
+Print Assumptions C02_gc_releases_expired.
+
+(* ---- the hypotheses are satisfiable ---------------------------------- *)
+
+Definition ex_rows : list qrow := [(2, 1000000000, None); (1, 1000000000, Some 0); (1, 2000000000, None)].
+Definition ex_cfg : config := mkcfg ex_rows.
+
+Example C02_ex_wf : wf ex_cfg.
+Proof.
+  intros q p H. unfold ex_cfg, mkcfg in H. cbn [cpar] in H.
+  destruct (Z.eqb_spec q 0) as [->|N0]; [vm_compute in H; discriminate|].
+  destruct (Z.eqb_spec q 1) as [->|N1]; [vm_compute in H; inversion H; lia|].
+  destruct (Z.eqb_spec q 2) as [->|N2]; [vm_compute in H; discriminate|].
+  exfalso. unfold ex_rows, zth in H.
+  apply Z.eqb_neq in N0. rewrite N0 in H.
+  assert (Q1 : (q - 1 =? 0) = false) by (apply Z.eqb_neq; lia). rewrite Q1 in H.
+  assert (Q2 : (q - 1 - 1 =? 0) = false) by (apply Z.eqb_neq; lia). rewrite Q2 in H.
+  discriminate H.
+Qed.
+
+(* request 1 goes through the child quota 1 (parent 0) and the unrelated quota
+   2, request 2 is refused by the full child, request 1 is dropped: the first
+   chain is released, the slot in quota 2 stays; it goes with the GC pass after
+   its expiry (2.01 s); a probe is admitted afterwards *)
+Example C02_ex_history :
+  run_rsteps ex_rows ex_cfg (init 0)
+    [ROp 1 (OGetQ 1); ROp 1 (OAllowed 1); ROp 1 (OGetQ 2); ROp 1 (OAllowed 2);
+     ROp 2 (OAllowed 1); ROp 1 ODrop; ROp 2 (OAllowed 1);
+     RTick 2009999999; RGc 2; RTick 1; RGc 2; ROp 3 (OAllowed 2)]
+  = [(-1, [0; 0; 0]); (1, [1; 1; 0]); (-1, [1; 1; 0]); (1, [1; 1; 1]);
+     (0, [1; 1; 1]); (-1, [0; 0; 1]); (1, [1; 1; 1]);
+     (-1, [1; 1; 1]); (-1, [1; 1; 1]); (-1, [1; 1; 1]); (-1, [1; 1; 0]); (1, [1; 1; 1])].
+Proof. vm_compute. reflexivity. Qed.
+
+Definition ex_evs : list event :=
+  ECall (Req 1) (OAllowed 1) :: repeat (EStep (Req 1)) 12 ++
+  ECall (Req 2) (OAllowed 1) :: repeat (EStep (Req 2)) 12.
+
+(* a phased schedule after which request 1 is in flight under both quotas of
+   its chain and request 2 was refused *)
+Example C02_ex_inflight :
+  phased ex_cfg 0 ex_evs /\
+  let s := run ex_cfg (init 0) ex_evs in
+  inflight s 1 1 /\ inflight s 0 1 /\ verdict s 1 = Some true /\ verdict s 2 = Some false /\
+  status s 1 2 = None.
+Proof.
+  split; [unfold phased; cbn; intuition discriminate|].
+  cbn zeta. split; [|split; [|split; [|split]]].
+  - exists 1010000000. split; [vm_compute; reflexivity|].
+    split; [vm_compute; reflexivity|vm_compute; tauto].
+  - exists 1010000000. split; [vm_compute; reflexivity|].
+    split; [vm_compute; reflexivity|vm_compute; tauto].
+  - vm_compute; reflexivity.
+  - vm_compute; reflexivity.
+  - vm_compute; reflexivity.
+Qed.
